@@ -917,3 +917,187 @@ def gen_proxy(L, K, rng):
                     g.lines.append(g.emplace_line(a, t))
                     g.stat("emplace")
     return g.finish(), g.stats
+
+
+# ---------------------------------------------------------------- elements (C12)
+def gen_elem(L, K, rng, moved_targets=False):
+    """vectors plus up to four ContiguousElement slots: construction from const / lvalue /
+    rvalue references with and without allocator, copy / move (also allocator-extended),
+    copy / move assignment between elements of different varying sizes and allocators, swap,
+    element = reference, reference = element, comparisons, then mutation of one side to
+    show independence"""
+    g = ScriptGen(L, K, rng, domain=3)
+    nf = nfixed(L)
+    fixed = [rng.choice([0, 1, 2, 3]) for _ in range(nf)]
+    ca = can_assign(L)
+    nv = rng.choice([1, 2])
+    for s in range(nv):
+        if rng.random() < 0.4:
+            g.lines.append("junk %d" % rng.choice([0, 85, 170, 255]))
+        n = rng.choice([2, 3, 4])
+        per = sum(p.size for p in L if p.kind == VARYING)
+        g.op_mkvec(s, cap=n + 1, budget=per * 4 * (n + 1) if has_varying(L) else 0, fixed=fixed, aid=rng.choice([1, 2]))
+        for _ in range(n):
+            g.op_emplace(s)
+    vs = [s for s in range(nv) if g.slots[s].elems]
+    if not vs:
+        return g.finish(), g.stats
+    E = [None] * 4          # dict(t, aid, null)
+    shape = lambda t: [len(f) for f in t]
+    scrib = lambda t, ctor=False: [[[238] * p.size for _ in f] if p.ty in ((TTRK, TTRKC) if ctor else (TTRK,)) else f for f, p in zip(t, L)]
+    aeq = lambda a, b: bool(K[3]) or a == b
+    fixed_path = not has_varying(L) and (not K[0] or K[3])
+
+    def live():
+        return [e for e in range(4) if E[e] is not None and not E[e]["null"]]
+
+    for _ in range(rng.randrange(8, 26)):
+        r = rng.random()
+        free = [e for e in range(4) if E[e] is None]
+        lv = live()
+        if r < 0.22 and free:
+            e, s = rng.choice(free), rng.choice(vs)
+            i = rng.randrange(len(g.slots[s].elems))
+            form = rng.choice([0, 1, 2])
+            aid = rng.choice([-1, 1, 2, 3])
+            t = g.slots[s].elems[i]
+            E[e] = {"t": [[list(o) for o in f] for f in t], "aid": max(aid, 0), "null": False}
+            if form == 2:
+                g.slots[s].elems[i] = scrib(t, True)
+            g.lines.append("efromref %d %d %d %d %d" % (e, s, i, form, aid))
+            g.stat("efromref-" + ["const", "lvalue", "move"][form] + ("-default-alloc" if aid < 0 else ""))
+        elif r < 0.30 and free and lv:
+            d, s = rng.choice(free), rng.choice(lv)
+            if rng.random() < 0.5:
+                E[d] = {"t": E[s]["t"], "aid": E[s]["aid"] + 100 if K[4] else E[s]["aid"], "null": False}
+                g.lines.append("ecopy %d %d" % (d, s))
+                g.stat("ecopy")
+            else:
+                aid = rng.choice([1, 2, 3])
+                E[d] = {"t": E[s]["t"], "aid": aid, "null": False}
+                g.lines.append("ecopyalloc %d %d %d" % (d, s, aid))
+                g.stat("ecopyalloc")
+        elif r < 0.38 and free and lv:
+            d, s = rng.choice(free), rng.choice(lv)
+            if rng.random() < 0.5:
+                E[d] = E[s]
+                E[s] = {"t": None, "aid": E[d]["aid"], "null": True}
+                g.lines.append("emove %d %d" % (d, s))
+                g.stat("emove")
+            else:
+                aid = rng.choice([1, 2, 3])
+                if K[3] or aid == E[s]["aid"]:
+                    E[d] = E[s]
+                    E[s] = {"t": None, "aid": E[d]["aid"], "null": True}
+                    g.stat("emovealloc-steal")
+                else:
+                    E[d] = {"t": E[s]["t"], "aid": aid, "null": False}
+                    E[s] = {"t": scrib(E[s]["t"], True), "aid": E[s]["aid"], "null": False}
+                    g.stat("emovealloc-elementwise")
+                g.lines.append("emovealloc %d %d %d" % (d, s, aid))
+        elif r < 0.52 and lv:
+            s = rng.choice(lv)
+            cands = [e for e in range(4) if E[e] is not None and (not E[e]["null"] or moved_targets)]
+            d = rng.choice([e for e in cands if e != s] or cands) if rng.random() < 0.9 else s
+            if d != s:
+                if fixed_path and not E[d]["null"] and (shape(E[d]["t"]) != shape(E[s]["t"]) or not ca):
+                    continue
+                size_rel = "into-moved-from" if E[d]["null"] else "same-size" if shape(E[d]["t"]) == shape(E[s]["t"]) else "different-size"
+                E[d] = {"t": E[s]["t"], "aid": E[s]["aid"] if K[0] else E[d]["aid"], "null": False}
+                g.stat("ecopyassign-" + ("fieldwise-" if fixed_path else "realloc-") + size_rel)
+            else:
+                g.stat("ecopyassign-self")
+            g.lines.append("ecopyassign %d %d" % (d, s))
+        elif r < 0.66 and lv:
+            s = rng.choice(lv)
+            cands = [e for e in range(4) if E[e] is not None and (not E[e]["null"] or moved_targets)]
+            d = rng.choice([e for e in cands if e != s] or cands) if rng.random() < 0.9 else s
+            if d != s:
+                if K[3] or K[1] or E[d]["aid"] == E[s]["aid"]:
+                    E[d] = {"t": E[s]["t"], "aid": E[s]["aid"] if K[1] else E[d]["aid"], "null": False}
+                    E[s] = {"t": None, "aid": E[s]["aid"], "null": True}
+                    g.stat("emoveassign-steal")
+                else:
+                    if not has_varying(L) and not E[d]["null"] and (shape(E[d]["t"]) != shape(E[s]["t"]) or not ca):
+                        continue
+                    g.stat("emoveassign-elementwise-" + ("into-moved-from" if E[d]["null"] else
+                           "same-size" if shape(E[d]["t"]) == shape(E[s]["t"]) else "different-size"))
+                    was_null = E[d]["null"]
+                    E[d] = {"t": E[s]["t"], "aid": E[d]["aid"], "null": False}
+                    E[s] = {"t": scrib(E[s]["t"], has_varying(L) or was_null), "aid": E[s]["aid"], "null": False}
+            else:
+                g.stat("emoveassign-self")
+            g.lines.append("emoveassign %d %d" % (d, s))
+        elif r < 0.72:
+            cands = [e for e in range(4) if E[e] is not None]
+            if len(cands) < 1:
+                continue
+            a, b = rng.choice(cands), rng.choice(cands)
+            if a != b:
+                if not K[2] and not aeq(E[a]["aid"], E[b]["aid"]):
+                    continue
+                x, y = dict(E[b]), dict(E[a])
+                if not K[2]:
+                    x["aid"], y["aid"] = E[a]["aid"], E[b]["aid"]
+                E[a], E[b] = x, y
+            g.lines.append("eswap %d %d" % (a, b))
+            g.stat("eswap")
+        elif r < 0.80 and lv and ca:
+            e, s = rng.choice(lv), rng.choice(vs)
+            idx = [i for i, t in enumerate(g.slots[s].elems) if shape(t) == shape(E[e]["t"])]
+            if not idx:
+                continue
+            i = rng.choice(idx)
+            if rng.random() < 0.5:
+                form = rng.choice([0, 1, 2])
+                t = g.slots[s].elems[i]
+                E[e] = {"t": [[list(o) for o in f] for f in t], "aid": E[e]["aid"], "null": False}
+                if form == 2:
+                    g.slots[s].elems[i] = scrib(t)
+                g.lines.append("eassignref %d %d %d %d" % (e, s, i, form))
+                g.stat("element=reference-" + ["const", "lvalue", "move"][form])
+            else:
+                form = rng.choice([0, 2])
+                g.slots[s].elems[i] = [[list(o) for o in f] for f in E[e]["t"]]
+                if form == 2:
+                    E[e] = {"t": scrib(E[e]["t"]), "aid": E[e]["aid"], "null": False}
+                g.lines.append("refassigne %d %d %d %d" % (s, i, e, form))
+                g.stat("reference=element-" + ("move" if form == 2 else "const"))
+        elif r < 0.88 and lv:
+            a = rng.choice(lv)
+            if rng.random() < 0.5:
+                g.lines.append("ecmpe %d %d" % (a, rng.choice(lv)))
+                g.stat("ecmpe")
+            else:
+                s = rng.choice(vs)
+                g.lines.append("ecmpr %d %d %d" % (a, s, rng.randrange(len(g.slots[s].elems))))
+                g.stat("ecmpr")
+        elif r < 0.94:
+            # independence: change the vector, then look at the elements (and the reverse)
+            s = rng.choice(vs)
+            v = g.slots[s]
+            i = rng.randrange(len(v.elems))
+            ks = [k for k, p in enumerate(L) if p.ty != TTRK and v.elems[i][k] and
+                  not (p.kind == PLAIN and k + 1 < len(L) and L[k + 1].kind == VARYING)]
+            if ks:
+                k = rng.choice(ks)
+                o = rng.randrange(len(v.elems[i][k]))
+                val = g.rand_obj(L[k])
+                v.elems[i][k][o] = val
+                g.lines.append("write %d %d %d %d %d %s" % (s, i, k, o, 0, " ".join(map(str, val))))
+                g.stat("write-vector")
+            for e in live():
+                g.lines.append("eobserve %d" % e)
+        else:
+            cands = [e for e in range(4) if E[e] is not None]
+            if cands:
+                e = rng.choice(cands)
+                E[e] = None
+                g.lines.append("edestroy %d" % e)
+                g.stat("edestroy")
+                for s in vs:
+                    g.lines.append("observe %d" % s)
+    for e in range(4):
+        if E[e] is not None:
+            g.lines.append("edestroy %d" % e)
+    return g.finish(), g.stats
